@@ -22,6 +22,9 @@ structure AccDesc (J : Type) where
   readonly : Option Bool        -- parameters only
   constant : Option J           -- serialised constant
   props : List (String × J)
+  /-- commands only: the described datainfo has an `argument` member (`CommandType.export_datatype`, datatypes.py 1146-1153:
+  present exactly when the command takes an argument) -/
+  argument : Option Bool
   deriving DecidableEq, Repr
 
 structure ModDesc (J : Type) where
@@ -38,8 +41,8 @@ def describeAcc (pre : Predef) (m : Module J V) (a : Acc J V) : Option (AccDesc 
   | none => none
   | some w =>
     match a with
-    | .param p => some ⟨w, .parameter, p.dt.datainfo, some p.readonly, p.constant.map p.dt.exportV, p.props⟩
-    | .command c => some ⟨w, .command, c.datainfo, none, none, c.props⟩
+    | .param p => some ⟨w, .parameter, p.dt.datainfo, some p.readonly, p.constant.map p.dt.exportV, p.props, none⟩
+    | .command c => some ⟨w, .command, c.datainfo, none, none, c.props, some c.arg.isSome⟩
 
 def describeModule (pre : Predef) (m : Module J V) : ModDesc J :=
   ⟨m.name, m.accs.filterMap (describeAcc pre m), m.props⟩
